@@ -17,56 +17,92 @@ PROPERTY = "C10"
 C_PINV = 256.0      # |x - x*|            <= C_PINV eps cond |b| / sigma_r
 C_LSTSQ = 32.0      # |A^T (A x - b)|     <= C_LSTSQ eps (max(m,n)+8) |A| (|A||x| + |b|)
 C_CHOL = 32.0       # |x - A^-1 b|        <= C_CHOL eps (n+4) cond |x*|
-C_CG = 16.0         # |b - A x|           <= tol|b| + C_CG eps cond |A| (|x| + |x0|)
+C_CHOL_BE = 4.0     # |b - A x|           <= C_CHOL_BE eps (n+4) (|A||x| + |b|)   (backward stability, no cond factor)
+C_CG = 8.0          # |b - A x|           <= tol|b| + C_CG eps sqrt(n) |A| (|x| + |x0|)   (no cond factor, see CGSub)
+GAP = 16.0          # explicit rtol/atol/rcond cut-offs are placed in a spectral gap s_j / s_{j+1} >= GAP, a factor >= 4 from both
 NONPD_RES = 1e-6    # failure clause: a returned x must satisfy |Ax-b| <= 1e-6 (|A||x| + |b|)
 AMBIG = 0.5         # rank-deficient items: sigma_{r+1}(fl(A)) must be <= AMBIG * max(m,n) eps sigma_1
 
 RULE = (
     "pinv / lstsq: Hypothesis draws (m, n in 1..40, batch shape up to (3,2), dtype, rank mode, cond=10^k k<=8 "
-    "(float32: k<=3), spectrum shape, rhs kind, scales, structure, seed); the oracle expands the seed with "
+    "(float32: clipped to 0.1/(max(m,n) eps), i.e. 2e4 at size 40 .. 3e5 at size 2), spectrum shape, rhs kind, scales, "
+    "structure, seed); the oracle expands the seed with "
     "np.random.RandomState into A = U_r diag(s) V_r^T (orthogonal factors = QR of a seeded Gaussian or Householder "
     "products; structures: plain, symmetric indefinite, duplicated / zero-padded columns or rows, zero matrix) and b "
     "(in range, mixed, orthogonal to range, b = A x_true, zero), so x* = V_r S_r^-1 U_r^T b is known by construction. "
-    "PINV (default arguments; hermitian=True on the symmetric structure): |x - x*| <= 256 eps cond |b| / sigma_r "
-    "(x = 0 exactly for A = 0).  LSTSQ (driver None/gelsy/gelsd/gelss on everything, gels on full-rank A only): "
-    "|A^T(Ax-b)| <= 32 eps (max(m,n)+8) |A| (|A||x|+|b|) (any least-squares solution; no condition-number factor). "
-    "cholesky: SPD Q diag(lam) Q^T, cond <= 1e8, batches, upper/lower: |x - Q lam^-1 Q^T b| <= 32 eps (n+4) cond |x*|; "
-    "failure clause (indefinite with lam_min <= -1e-3 lam_max; exactly singular integer L0 L0^T with a zero on the "
-    "diagonal of L0 = exact zero pivot; zero matrix; one non-PD item inside an SPD batch): the call must raise or "
-    "return x with |Ax-b| <= max(1e-6, 32 (n+4) eps) (|A||x|+|b|).  cg: SPD with prescribed spectrum (dense Q lam Q^T or permuted "
-    "block-diagonal = genuinely sparse), n <= 40, cond <= 1e3, layouts dense/CSR/COO/BSR for A and M (probed once at "
-    "import), x0 in {none, random, near, exact, zero}, M in {none, Jacobi, perturbed exact inverse}, tol in "
-    "{1e-3,1e-5,1e-8}, |b| = 10^-4..10^4, b (n,) or (n,1), b = eigenvector, b = 0: |b - Ax| <= tol |b| + 16 eps cond "
-    "|A| (|x|+|x0|); b = 0 -> x = 0 exactly; x0, A, b, M unchanged (side check).  sparse: block matrices (0..6 block "
+    "PINV (default arguments 60 %; hermitian=True on the symmetric structure; explicit rtol / atol 40 %: a float, or a "
+    "Tensor with one value per batch item, either sigma_r/4 = only rounding noise is cut, or inside a spectral gap "
+    "sigma_j/sigma_j+1 >= 16 a factor >= 4 from both = x* is the minimum-norm solution of the rank-j truncation): "
+    "|x - x*| <= 256 eps (sigma_1/sigma_j) |b| / sigma_j with sigma_j the smallest singular value kept "
+    "(x = 0 exactly for A = 0).  LSTSQ (driver None/gelsy/gelsd/gelss on everything, gels on full-rank A only; rcond "
+    "default, or explicit far below sigma_r/sigma_1): "
+    "|A^T(Ax-b)| <= 32 eps (max(m,n)+8) |A| (|A||x|+|b|) (any least-squares solution; no condition-number factor); "
+    "rcond inside a spectral gap of every batch item with the SVD drivers gelsd / gelss: the PINV bound against the "
+    "truncated minimum-norm solution. "
+    "cholesky: SPD Q diag(lam) Q^T, cond <= 1e8 (float32: <= 0.1/(n eps)), batches, upper/lower: "
+    "|x - Q lam^-1 Q^T b| <= 32 eps (n+4) cond |x*| and the backward-stability residual |Ax-b| <= 4 (n+4) eps (|A||x|+|b|) "
+    "(no cond factor); "
+    "failure clause (indefinite with lam_min <= -1e-3 lam_max; weakly indefinite: 1-2 eigenvalues -10^-d lam_max, "
+    "d = 3..17 (float32 3..9), i.e. down to below the rounding level; rank-deficient PSD with exact zero eigenvalues; "
+    "exactly singular integer L0 L0^T (any n <= 40) with a zero on the "
+    "diagonal of L0 = exact zero pivot; zero matrix; one non-PD item of any of these kinds inside an SPD batch): the "
+    "call must raise or "
+    "return x with |Ax-b| <= max(1e-6, 32 (n+4) eps) (|A||x|+|b|) (never a silently wrong vector; the evidence labels "
+    "chol:raised:<kind> / chol:returned:<kind> show that returns happen only at the rounding level).  "
+    "cg: SPD with prescribed spectrum (dense Q lam Q^T or permuted "
+    "block-diagonal = genuinely sparse), n <= 40, cond <= 1e3 (both dtypes: measured attainable), layouts "
+    "dense/CSR/COO/BSR for A and M (probed once at "
+    "import), x0 in {none, random, near, exact, zero} (shape (n,1), with b of shape (n,1) or (n,)), M in {none, Jacobi, "
+    "perturbed exact inverse}, tol in "
+    "{1e-3,1e-5,1e-8}, |b| = 10^-4..10^4, b = eigenvector, b = 0: |b - Ax| <= tol |b| + 8 eps sqrt(n) "
+    "|A| (|x|+|x0|) (the gap between CG's recursive residual and the true one; no condition-number factor, see CGSub); "
+    "b = 0 -> x = 0 exactly; x0, A, b, M unchanged (side check).  sparse: block matrices (1..40/blocksize block "
     "rows/cols, block sizes 1..4 rectangular, pattern styles random density 0..1 / full / empty / diag / band / "
     "first / last / empty row / empty column, explicitly stored zero blocks), integer-valued (torch.equal with the "
     "numpy product) or real-valued (|err| <= 4 eps K max|a| max|b|), all 36 ordered layout pairs of "
-    "{dense,COO,CSR,CSC,BSR,BSC} through _sparse_csr_mm plus bsr_bsc_matmul directly: pairs the dispatcher handles "
-    "(CSR/CSC x CSR/CSC, BSR x BSC, CSR/CSC/BSR x dense) must return the product (a raise is excused only when "
-    "plain torch.matmul raises for the same operands), every other pair (and BSR/BSC operands blocked differently "
-    "along the inner dimension) may raise but must not return a wrong or structurally inconsistent product.  "
-    "patterns: ALL sparsity patterns of (1 x k)(k x 1) k <= 6, (2 x k)(k x 2) k <= 3, (3 x 2)(2 x 1), (1 x 2)(2 x 3) "
+    "{dense,COO,CSR,CSC,BSR,BSC} through _sparse_csr_mm plus bsr_bsc_matmul directly (BSR x BSC: must return; the "
+    "CSR/CSC operand variants its asserts admit: may raise): the pairs the dispatcher handles - 5 of the 16 "
+    "sparse x sparse pairs of {CSR,CSC,BSR,BSC} (CSR/CSC x CSR/CSC, BSR x BSC) and CSR/CSC/BSR x dense - must return "
+    "the product (a raise is excused only when "
+    "plain torch.matmul raises for the same operands); every other pair (the remaining 11 sparse x sparse pairs, "
+    "everything with COO or a dense first operand, and BSR/BSC operands blocked differently "
+    "along the inner dimension) may raise - on the current tree they all do, loudly, which is the 'or fail loudly' "
+    "side of the statement (labels sparse:raised:<pair> / sparse:returned:<pair> give the counts per pair) - but must "
+    "not return a wrong or structurally inconsistent product.  "
+    "patterns: ALL sparsity patterns of (1 x k)(k x 1) 1 <= k <= 6, (2 x k)(k x 2) k <= 3, (3 x 2)(2 x 1), (1 x 2)(2 x 3) "
     "block matrices with an injective power-of-two value encoding (the result identifies the exact set of matched "
     "block pairs and their position).  "
     "Non-trivial: rank-deficient or rectangular A, or cond >= 1e4 (pinv/lstsq/cholesky), a failure-clause case "
     "(cholesky), CG with x0 or M, sparse pair with an empty block row/column or stored-block density < 0.3; "
-    "distinct = (sub-check, shape class, rank class, cond decade, spectrum, rhs kind, batch, dtype, driver / "
+    "distinct = (sub-check, shape class, rank class, cond decade, spectrum, rhs kind, batch, dtype, driver / options / "
     "layouts / pattern styles).")
 ASSUMPTIONS = [
-    "A, b real float64 / float32 on CPU; b has one right-hand-side column (the documented M x 1 shape); batch dims of A and b equal",
+    "A, b real float64 / float32 on CPU; b has one right-hand-side column (the documented M x 1 shape; CG also the 1-D "
+    "b its code unsqueezes); batch dims of A and b equal; no multi-column b (not documented for any solver)",
+    "float32 cannot resolve the statement's cond 1e8: float32 systems have cond <= 0.1 / (max(m,n) eps) (2.1e4 at size "
+    "40, 8.4e5 at size 1), which keeps sigma_min a factor 10 above the documented default rank cut-off max(m,n) eps "
+    "sigma_1 of pinv / lstsq and n eps cond <= 0.1 for the Cholesky factorisation; float64 goes to 1e8",
     "rank-deficient float matrices whose (r+1)-th computed singular value exceeds 0.5 * max(m,n) * eps * sigma_1 are "
     "discarded: there the rank of the float matrix under the documented default rcond/rtol is ambiguous",
-    "LSTSQ(driver='gels') is only given full-rank A (its docstring: 'If A is full-rank'); float32 cases have cond <= 1e3",
+    "explicit rtol / atol / rcond values are only placed a factor >= 4 away from every singular value (no ambiguous "
+    "rank decisions); a truncating rcond is only given to the SVD drivers gelsd / gelss (gelsy's rank estimate is not "
+    "the singular-value cut-off, gels ignores rcond)",
+    "LSTSQ(driver='gels') is only given full-rank A (its docstring: 'If A is full-rank')",
     "LSTSQ is only required to return SOME least-squares solution (normal-equation residual), as the statement says",
-    "Cholesky failure clause: symmetric input only; 'clearly non-PD' = lam_min <= -1e-3 lam_max or an exact zero pivot",
-    "CG: single systems, SPD A and SPD M, cond <= 1e3, default maxiter, |x0| comparable with |x*|; x0 has shape (n,1) "
-    "(with b of shape (n,) no x0 is passed); dense b",
-    "sparse operands are canonical (sorted, duplicate-free indices); torch's own constructors / to_dense are trusted",
+    "Cholesky failure clause: symmetric input only; non-PD = at least one eigenvalue <= 0 by construction (from "
+    "-lam_max down to -1e-17 lam_max and exactly 0) or an exact zero pivot; close to the PD boundary the float "
+    "factorisation may succeed, so everywhere the assertion is 'raises OR returns x with a small residual'",
+    "CG: single systems, SPD A and SPD M, cond <= 1e3, default maxiter, |x0| comparable with |x*|; x0 has the shape "
+    "(n,1) of the returned solution (also with b of shape (n,)); dense b",
+    "sparse operands are canonical (sorted, duplicate-free indices) and have no zero dimension (sizes 1..40); torch's "
+    "own constructors / to_dense are trusted",
 ]
 
 LAYOUTS = ("dense", "coo", "csr", "csc", "bsr", "bsc")
 MUST_RETURN = ({(a, b) for a in ("csr", "csc") for b in ("csr", "csc")} | {("bsr", "bsc")} |
                {(a, "dense") for a in ("csr", "csc", "bsr")})
+# bsr_bsc_matmul called directly: besides (bsr, bsc) its asserts also let these through (may raise, must not be wrong)
+DIRECT_EXTRA = {("csr", "csc"), ("bsr", "csc"), ("csr", "bsc")}
 
 
 # ----------------------------------------------------------------------------------------------
@@ -84,6 +120,18 @@ def _cast(a, dtype):
 def _note(rec, key, v):
     if v == v and v > rec.notes.get(key, -1.0):
         rec.notes[key] = float(v)
+
+
+def _cond_cap(dtype, k):
+    """largest condition number generated for a k x k (max(m,n) = k) system of the dtype: the statement's 1e8, but
+    the smallest singular value must stay a factor 10 above the documented default rank cut-off max(m,n) eps sigma_1
+    of pinv / lstsq (cond * k * eps <= 0.1); the same bound keeps the Cholesky factorisation of the rounded SPD
+    matrix safely away from breakdown (k eps cond << 1).  float64: always 1e8; float32: 2.1e4 (k=40) .. 8.4e5 (k=1)"""
+    return min(1e8, 0.1 / (max(k, 1) * tu.EPS[dtype]))
+
+
+def _decade(c):
+    return int(math.floor(math.log10(max(c, 1.0)) + 1e-9))
 
 
 def _cls(k):
@@ -235,6 +283,31 @@ def _xstar(it, b):
     return it.Vr @ ((it.Ur.T @ b) / it.s)
 
 
+def _xstar_trunc(it, b, j):
+    """minimum-norm least-squares solution of the rank-j truncation of A (its j largest singular values)"""
+    if j == 0:
+        return np.zeros(it.n)
+    return it.Vr[:, :j] @ ((it.Ur[:, :j].T @ b) / it.s[:j])
+
+
+def _cutoff(rs, it, gap):
+    """(j, tau): a relative singular-value cut-off tau (units of sigma_1) that keeps exactly the j largest singular values
+    of the item, a factor >= 4 away from sigma_j above and from sigma_{j+1} below (so that the rank decision of the float
+    matrix is unambiguous: the rounding perturbation of a singular value is <= sqrt(max(m,n)) eps sigma_1 and the noise
+    singular values of a rank-deficient float matrix are <= AMBIG max(m,n) eps sigma_1, both < sigma_r / 10 by
+    _cond_cap).  gap=True: inside a spectral gap sigma_j / sigma_{j+1} >= GAP if the spectrum has one (a real
+    truncation, j < r); otherwise / gap=False: tau = sigma_r / (4 sigma_1), nothing but the noise is cut (j = r)."""
+    s, r = it.s, it.r
+    if r == 0:
+        return 0, 0.1
+    if gap:
+        cands = [j for j in range(1, r) if s[j - 1] >= GAP * s[j]]
+        if cands:
+            j = cands[int(rs.randint(len(cands)))]
+            return j, math.sqrt(s[j - 1] * s[j]) / s[0]
+    return r, 0.25 * s[r - 1] / s[0]
+
+
 @st.composite
 def _ls_case(draw, with_driver):
     dtype = draw(st.sampled_from(("float64", "float64", "float64", "float64", "float32")))
@@ -251,7 +324,8 @@ def _ls_case(draw, with_driver):
         n = m
     case = {"m": m, "n": n, "batch": draw(_batch_st()), "dtype": dtype, "struct": struct,
             "rankmode": draw(st.sampled_from(RANKMODES)),
-            "cond_exp": draw(st.sampled_from(range(0, 9 if dtype == "float64" else 4))),
+            # float32: decades up to 1e5, clipped in build() to _cond_cap (cond * max(m,n) * eps <= 0.1)
+            "cond_exp": draw(st.sampled_from(range(0, 9 if dtype == "float64" else 6))),
             "cond_mant": draw(st.sampled_from((1.0, 1.0, 3.0))),
             "smode": draw(st.sampled_from(SMODES)), "bkind": draw(st.sampled_from(BKINDS)),
             "ascale_exp": draw(st.sampled_from(range(-3, 4))), "bscale_exp": draw(st.sampled_from(range(-3, 4))),
@@ -264,16 +338,22 @@ def _ls_case(draw, with_driver):
             case["rankmode"] = "full"              # documented for full-rank A only
             if struct not in ("svd", "sym"):
                 case["struct"] = "svd"
+        # the documented rcond argument: explicit value well below every singular value (same solution set as the
+        # default), or - SVD drivers only, whose cut-off is exactly 'sigma_i <= rcond sigma_1' - inside a spectral gap
+        case["rcond"] = draw(st.sampled_from(("default",) * 4 + ("tiny", "gap", "gap")))
     else:
         case["hermitian"] = bool(struct == "sym" and draw(st.booleans()))
+        # the documented atol / rtol arguments (float, or a Tensor with one value per batch item)
+        case["opt"] = draw(st.sampled_from(("default",) * 6 + ("rtol_tiny", "atol_tiny", "rtol_gap", "atol_gap")))
     return case
 
 
 def _ls_simplify(case):
-    for key, small in (("batch", []), ("dtype", "float64"), ("struct", "svd"), ("view", "contig"),
+    for key, small in (("opt", "default"), ("rcond", "default"),
+                       ("batch", []), ("dtype", "float64"), ("struct", "svd"), ("view", "contig"),
                        ("factor", "qr"), ("smode", "geom"), ("cond_exp", 0), ("cond_mant", 1.0),
                        ("ascale_exp", 0), ("bscale_exp", 0), ("bkind", "random"), ("seed", 0)):
-        if case.get(key) != small:
+        if key in case and case[key] != small:
             yield dict(case, **{key: small})
     for key in ("m", "n"):
         v = case[key]
@@ -296,8 +376,7 @@ class _LSBase(Sub):
         rs = np.random.RandomState(case["seed"])
         batch = list(case["batch"])
         nb = int(np.prod(batch)) if batch else 1
-        cond = case["cond_mant"] * 10.0 ** case["cond_exp"]
-        cond = min(cond, 1e8 if dtype == "float64" else 1e3)
+        cond = self.cond_of(case)
         items = []
         for i in range(nb):
             it = _make_item(rs, case["m"], case["n"], case["struct"], case["rankmode"], cond, case["smode"],
@@ -320,16 +399,25 @@ class _LSBase(Sub):
             A = A.mT.contiguous().mT                # same values, column-major strides
         return items, A, b, eps
 
+    @staticmethod
+    def cond_of(case):
+        """the condition number actually built: drawn mantissa * decade, clipped to _cond_cap of the dtype and size"""
+        m = case["m"]
+        n = m if case["struct"] == "sym" else case["n"]
+        return min(case["cond_mant"] * 10.0 ** case["cond_exp"], _cond_cap(case["dtype"], max(m, n)))
+
     def describe(self, case, items, rec, extra=()):
         m, n = items[0].m, items[0].n
         k = min(m, n)
+        dec = _decade(self.cond_of(case))
         ranks = [it.r for it in items]
         rk = "full" if min(ranks) == k else "zero" if max(ranks) == 0 else "mixed" if max(ranks) == k else "def"
         shp = "square" if m == n else "tall" if m > n else "wide"
-        rec.label("shape:" + shp, "rank:" + rk, "cond:1e%d" % case["cond_exp"], "struct:" + case["struct"],
+        rec.label("shape:" + shp, "rank:" + rk, "cond:1e%d" % dec, "cond:%s:1e%d" % (case["dtype"], dec),
+                  "struct:" + case["struct"],
                   "b:" + case["bkind"], "batch:%s" % (case["batch"],), case["dtype"], "size:" + _cls(max(m, n)))
-        if rk != "full" or m != n or case["cond_exp"] >= 4:
-            rec.nt((shp, _cls(m), _cls(n), rk, case["cond_exp"], case["smode"], case["bkind"], case["struct"],
+        if rk != "full" or m != n or dec >= 4:
+            rec.nt((shp, _cls(m), _cls(n), rk, dec, case["smode"], case["bkind"], case["struct"],
                     tuple(case["batch"]), case["dtype"], case["view"]) + tuple(extra))
         return rk
 
@@ -348,9 +436,28 @@ class Pinv(_LSBase):
         items, A, b, eps = self.build(case, rec)
         A0, b0 = A.clone(), b.clone()
         herm = bool(case.get("hermitian"))
-        with rec.sut("PINV"):
-            x = ppos.PINV(hermitian=herm)(A, b)
-        self.describe(case, items, rec, ("herm",) if herm else ())
+        opt = case.get("opt", "default")
+        kw = {}
+        for it in items:
+            it.j = it.r
+        if opt != "default":
+            # explicit atol / rtol: one cut-off per batch item (a float for a single system, else a Tensor of the batch shape)
+            rs2 = np.random.RandomState((case["seed"] + 1) % 2 ** 31)
+            vals = []
+            for it in items:
+                it.j, tau = _cutoff(rs2, it, opt.endswith("gap"))
+                it.xs = _xstar_trunc(it, it.b, it.j)
+                vals.append(tau if opt.startswith("rtol") else (tau * it.s[0] if it.r else 1.0))
+            key = "rtol" if opt.startswith("rtol") else "atol"
+            kw[key] = float(vals[0]) if not case["batch"] else \
+                torch.tensor(vals, dtype=tu.TD[case["dtype"]]).reshape(list(case["batch"]))
+            rec.label("pinv:opt:" + opt + (":tensor" if case["batch"] else ":float"),
+                      "pinv:cut:" + ("truncating" if any(it.j < it.r for it in items) else "noise_only"))
+        else:
+            rec.label("pinv:opt:default")
+        with rec.sut("PINV(%s)" % ",".join(sorted(kw))):
+            x = ppos.PINV(hermitian=herm, **kw)(A, b)
+        self.describe(case, items, rec, (("herm",) if herm else ()) + ((opt,) if opt != "default" else ()))
         n = items[0].n
         if not rec.check(tuple(x.shape) == tuple(case["batch"]) + (n, 1), "pinv:shape",
                          "result shape %s for A %s" % (tuple(x.shape), tuple(A.shape))):
@@ -365,15 +472,16 @@ class Pinv(_LSBase):
             if it.r == 0:
                 rec.check(err == 0.0, "pinv:zero_matrix", "A = 0 but x = %s" % xi[:4])
                 continue
-            cond = it.s[0] / it.s[-1]
-            tol = C_PINV * eps * cond * _nrm(it.b) / it.s[-1]
+            sj = it.s[it.j - 1]                       # smallest singular value kept (sigma_r with the default cut-off)
+            cond = it.s[0] / sj
+            tol = C_PINV * eps * cond * _nrm(it.b) / sj
             if tol == 0.0:
                 rec.check(err == 0.0, "pinv:b0", "b = 0 but |x| = %.3g" % err)
                 continue
-            _note(rec, "pinv_err/tol", err / tol)
-            rec.check(err <= tol, "pinv:minnorm:%s" % case["dtype"],
-                      lambda: "item %d (%dx%d rank %d cond %.2g %s): |x - x*| = %.3g > tol %.3g; |x*|=%.3g |x|=%.3g"
-                      % (i, it.m, it.n, it.r, cond, case["struct"], err, tol, _nrm(it.xs), _nrm(xi)))
+            _note(rec, "pinv_err/tol" if opt == "default" else "pinv_opt_err/tol", err / tol)
+            rec.check(err <= tol, "pinv:minnorm:%s%s" % (case["dtype"], "" if opt == "default" else ":" + opt),
+                      lambda: "item %d (%dx%d rank %d, %d kept, cond %.2g %s, %s): |x - x*| = %.3g > tol %.3g; |x*|=%.3g |x|=%.3g"
+                      % (i, it.m, it.n, it.r, it.j, cond, case["struct"], kw or "defaults", err, tol, _nrm(it.xs), _nrm(xi)))
 
 
 class Lstsq(_LSBase):
@@ -389,11 +497,32 @@ class Lstsq(_LSBase):
             case = dict(case, rankmode="full", struct="svd")     # gels is documented for full-rank A only
         items, A, b, eps = self.build(case, rec)
         A0, b0 = A.clone(), b.clone()
-        with rec.sut("LSTSQ(driver=%s)" % drv):
-            x = ppos.LSTSQ(driver=drv)(A, b)
-        self.describe(case, items, rec, (case["driver"],))
-        rec.label("driver:" + case["driver"])
         n, m = items[0].n, items[0].m
+        ropt, rcond, trunc = case.get("rcond", "default"), None, False
+        if ropt != "default":
+            # 'tiny': far below every singular value of every item (1e-3 sigma_r / sigma_1, but not below twice the
+            # default cut-off): no singular value is cut, any least-squares solution is accepted as with the default
+            rcond = max(1e-3 / self.cond_of(case), 2.0 * max(m, n) * eps)
+            if ropt == "gap" and case["driver"] in ("gelsd", "gelss"):
+                # SVD drivers cut exactly the sigma_i <= rcond sigma_1: one rcond (a float) that lies in a gap of
+                # EVERY item of the batch, a factor >= 4 from all singular values; else fall back to 'tiny'
+                rs2 = np.random.RandomState((case["seed"] + 1) % 2 ** 31)
+                j0, tau = _cutoff(rs2, items[0], True)
+                js = [int((it.s > tau * it.s[0]).sum()) if it.r else 0 for it in items]
+                clear = all(it.r == 0 or ((j == it.r or it.s[j] * 4.0 <= tau * it.s[0]) and
+                                          j >= 1 and it.s[j - 1] >= 4.0 * tau * it.s[0]) for it, j in zip(items, js))
+                if j0 < items[0].r and clear:
+                    rcond, trunc = float(tau), True
+                    for it, j in zip(items, js):
+                        it.j = j
+                        it.xs = _xstar_trunc(it, it.b, j)
+            rec.label("lstsq:rcond:" + ("gap_truncating" if trunc else "tiny") + ":" + case["driver"])
+        else:
+            rec.label("lstsq:rcond:default")
+        with rec.sut("LSTSQ(driver=%s, rcond=%s)" % (drv, rcond)):
+            x = ppos.LSTSQ(rcond=rcond, driver=drv)(A, b)
+        self.describe(case, items, rec, (case["driver"],) + ((ropt, trunc) if ropt != "default" else ()))
+        rec.label("driver:" + case["driver"])
         if not rec.check(tuple(x.shape) == tuple(case["batch"]) + (n, 1), "lstsq:shape",
                          "result shape %s for A %s" % (tuple(x.shape), tuple(A.shape))):
             return
@@ -403,6 +532,22 @@ class Lstsq(_LSBase):
             xi = X[i]
             if not rec.check(bool(np.isfinite(xi).all()), "lstsq:nonfinite", "non-finite solution (item %d)" % i):
                 return
+            if trunc:
+                # rcond inside a spectral gap, SVD driver: the minimum-norm solution of the rank-j truncation (PINV bound)
+                err = _nrm(xi - it.xs)
+                if it.r == 0 or it.j == 0:
+                    rec.check(err == 0.0, "lstsq:rcond_gap:zero", "nothing kept but x = %s" % xi[:4])
+                    continue
+                sj = it.s[it.j - 1]
+                tolx = C_PINV * eps * (it.s[0] / sj) * _nrm(it.b) / sj
+                if tolx == 0.0:
+                    rec.check(err == 0.0, "lstsq:rcond_gap:b0", "b = 0 but |x| = %.3g" % err)
+                    continue
+                _note(rec, "lstsq_rcond_err/tol", err / tolx)
+                rec.check(err <= tolx, "lstsq:rcond_gap:%s:%s" % (case["driver"], case["dtype"]),
+                          lambda: "item %d (%dx%d rank %d, rcond %.3g keeps %d): |x - x_trunc*| = %.3g > tol %.3g; |x|=%.3g"
+                          % (i, it.m, it.n, it.r, rcond, it.j, err, tolx, _nrm(xi)))
+                continue
             nA = float(it.s[0]) if it.r else 0.0
             res = _nrm(it.A.T @ (it.A @ xi - it.b))
             tol = C_LSTSQ * eps * (max(m, n) + 8) * nA * (nA * _nrm(xi) + _nrm(it.b))
@@ -417,7 +562,8 @@ class Lstsq(_LSBase):
 
 # ----------------------------------------------------------------------------------------------
 # Cholesky
-CH_KINDS = ("spd", "spd", "spd", "indef", "singular_int", "zero", "batch_mixed", "neg_def")
+CH_KINDS = ("spd", "spd", "spd", "spd", "indef", "weak_indef", "weak_indef", "psd_singular", "singular_int", "zero",
+            "batch_mixed", "batch_mixed", "neg_def")
 
 
 def _int_singular(rs, n):
@@ -437,7 +583,13 @@ def _chol_case(draw):
     if kind == "batch_mixed" and not batch:
         batch = [2]
     return {"kind": kind, "n": draw(_size_st()), "batch": batch, "dtype": dtype, "upper": draw(st.booleans()),
-            "cond_exp": draw(st.sampled_from(range(0, 9 if dtype == "float64" else 4))),
+            # weak_indef: 1 or 2 eigenvalues are -10^-dexp lam_max, from clearly negative down to below the rounding
+            # level n eps of the dtype (there the factorisation may legitimately succeed)
+            "dexp": draw(st.sampled_from(range(3, 18) if dtype == "float64" else range(3, 10))),
+            "nneg": draw(st.sampled_from((1, 1, 2))),
+            "badkind": draw(st.sampled_from(("indef", "indef", "weak_indef", "psd_singular"))),
+            # float32: decades up to 1e5, clipped in the oracle to _cond_cap (cond * n * eps <= 0.1)
+            "cond_exp": draw(st.sampled_from(range(0, 9 if dtype == "float64" else 6))),
             "smode": draw(st.sampled_from(SMODES)), "bkind": draw(st.sampled_from(("random", "random", "range", "eig", "zero"))),
             "ascale_exp": draw(st.sampled_from(range(-3, 4))), "bscale_exp": draw(st.sampled_from(range(-3, 4))),
             "factor": draw(st.sampled_from(("qr", "qr", "householder"))), "seed": draw(st.integers(0, 2 ** 31 - 1))}
@@ -452,7 +604,7 @@ class Cholesky(Sub):
 
     def _item(self, rs, case, kind, n):
         """returns A (float64), expected-PD flag, x* builder data"""
-        cond = 10.0 ** case["cond_exp"]
+        cond = min(10.0 ** case["cond_exp"], _cond_cap(case["dtype"], n))
         scale = 10.0 ** case["ascale_exp"]
         if kind == "spd":
             A, Q, lam = LS.spd(rs, n, cond, case["smode"], scale, case["factor"])
@@ -468,8 +620,17 @@ class Cholesky(Sub):
             lam = lam * sign
             A = (Q * lam) @ Q.T
             return 0.5 * (A + A.T), False, (Q, lam)
+        if kind == "weak_indef" or kind == "psd_singular":
+            # near the boundary of the PD cone: an SPD spectrum with 1-2 eigenvalues replaced by -delta lam_max
+            # (delta = 10^-dexp) or by exactly 0 (rank-deficient PSD; the float matrix has lam_min = O(eps) of either sign)
+            Q = LS.orth(rs, n)
+            lam = LS.spectrum(rs, n, min(cond, 1e3), case["smode"]) * scale
+            idx = rs.permutation(n)[:min(n, int(case.get("nneg", 1)))]
+            lam[idx] = -(10.0 ** -int(case.get("dexp", 6))) * scale if kind == "weak_indef" else 0.0
+            A = (Q * lam) @ Q.T
+            return 0.5 * (A + A.T), False, (Q, lam)
         if kind == "singular_int":
-            A, _ = _int_singular(rs, min(n, 8))
+            A, _ = _int_singular(rs, n)
             return A, False, None
         if kind == "zero":
             return np.zeros((n, n)), False, None
@@ -487,11 +648,11 @@ class Cholesky(Sub):
             rs = np.random.RandomState(case["seed"])
             batch = list(case["batch"])
             nb = int(np.prod(batch)) if batch else 1
-            n = case["n"] if kind != "singular_int" else min(case["n"], 8)
+            n = case["n"]
             bad = int(rs.randint(0, nb))
             As, bs, pds, refs = [], [], [], []
             for i in range(nb):
-                k = kind if kind != "batch_mixed" else ("indef" if i == bad else "spd")
+                k = kind if kind != "batch_mixed" else (case.get("badkind", "indef") if i == bad else "spd")
                 A, pd, ref = self._item(rs, case, k, n)
                 g = rs.randn(n)
                 if case["bkind"] == "zero":
@@ -511,7 +672,13 @@ class Cholesky(Sub):
         b = torch.stack(tb).reshape(batch + [n, 1])
         A0, b0 = A.clone(), b.clone()
         all_pd = all(pds)
-        rec.label("chol:" + kind, dtype, "upper" if case.get("upper") else "lower", "cond:1e%d" % case.get("cond_exp", 0))
+        dec = _decade(min(10.0 ** case.get("cond_exp", 0), _cond_cap(dtype, n)))
+        rec.label("chol:" + kind, dtype, "upper" if case.get("upper") else "lower", "cond:1e%d" % dec, "size:" + _cls(n))
+        if all_pd:
+            rec.label("chol:spd:cond:%s:1e%d" % (dtype, dec))
+        sub = kind if kind != "batch_mixed" else "batch_mixed:" + case.get("badkind", "indef")
+        if "weak_indef" in sub:
+            sub += ":%s:1e-%d" % (dtype, int(case.get("dexp", 6)))
         solver = ppos.Cholesky(upper=bool(case.get("upper", False)))
         if all_pd:
             with rec.sut("Cholesky"):
@@ -520,13 +687,15 @@ class Cholesky(Sub):
             try:
                 x = solver(A, b)
             except Exception as e:      # failing loudly is what the property asks for
-                rec.label("chol:raised:" + type(e).__name__)
-                rec.nt(("chol_fail", kind, _cls(n), tuple(batch), dtype, case.get("upper"), "raised"))
+                rec.label("chol:raised:" + type(e).__name__, "chol:raised:" + sub)
+                rec.nt(("chol_fail", sub, _cls(n), tuple(batch), dtype, case.get("upper"), "raised"))
                 return
-            rec.label("chol:returned_on_nonpd")
-            rec.nt(("chol_fail", kind, _cls(n), tuple(batch), dtype, case.get("upper"), "returned"))
-        if all_pd and case.get("cond_exp", 0) >= 4:
-            rec.nt(("chol", _cls(n), case["cond_exp"], case["smode"], case["bkind"], tuple(batch), dtype, case["upper"]))
+            # (expected only at the PD boundary: eigenvalues of size <= ~n eps |A| of either sign, where the float
+            #  factorisation may succeed; anywhere else the residual test below fails)
+            rec.label("chol:returned_on_nonpd", "chol:returned:" + sub)
+            rec.nt(("chol_fail", sub, _cls(n), tuple(batch), dtype, case.get("upper"), "returned"))
+        if all_pd and dec >= 4:
+            rec.nt(("chol", _cls(n), dec, case["smode"], case["bkind"], tuple(batch), dtype, case["upper"]))
         if not rec.check(tuple(x.shape) == tuple(batch) + (n, 1), "cholesky:shape", "result shape %s" % (tuple(x.shape),)):
             return
         rec.check(torch.equal(A, A0) and torch.equal(b, b0), "cholesky:mutates_input", "Cholesky changed A or b")
@@ -547,6 +716,14 @@ class Cholesky(Sub):
                 _note(rec, "chol_err/tol", err / tol)
                 rec.check(err <= tol, "cholesky:spd:%s" % dtype,
                           lambda: "item %d n=%d cond %.2g: |x - A^-1 b| = %.3g > tol %.3g" % (i, n, cond, err, tol))
+                # backward stability (Higham, ASNA Thm 10.4: (A + dA) x = b, |dA| <= gamma_{3n+1} |R^T||R|): the residual
+                # of the float matrix carries no condition-number factor; 4 (n+4) eps >= gamma_{3n+1}
+                res = _nrm(An[i] @ xi - bn[i])
+                tolb = C_CHOL_BE * (n + 4) * eps * (float(lam[0]) * _nrm(xi) + _nrm(bn[i]))
+                _note(rec, "chol_res/tol", res / tolb)
+                rec.check(res <= tolb, "cholesky:spd_residual:%s" % dtype,
+                          lambda: "item %d n=%d cond %.2g: |A x - b| = %.3g > %.3g = %g (n+4) eps (|A||x| + |b|)"
+                          % (i, n, cond, res, tolb, C_CHOL_BE))
             else:
                 # the solver returned although (some item of) A is not positive definite: every item must be solved
                 nA = float(np.linalg.norm(An[i], 2)) if n else 0.0
@@ -562,6 +739,10 @@ class Cholesky(Sub):
     def simplify(self, case):
         if case["kind"] == "explicit":
             return
+        if case.get("nneg", 1) != 1:
+            yield dict(case, nneg=1)
+        if case.get("dexp", 3) > 3:
+            yield dict(case, dexp=case["dexp"] - 1)
         for key, small in (("batch", [] if case["kind"] != "batch_mixed" else [2]), ("dtype", "float64"),
                            ("upper", False), ("smode", "geom"), ("cond_exp", 0), ("ascale_exp", 0),
                            ("bscale_exp", 0), ("bkind", "random"), ("factor", "qr"), ("seed", 0)):
@@ -582,9 +763,8 @@ def _cg_case(draw):
     layout = draw(st.sampled_from(("dense", "csr", "coo", "bsr")))
     divs = [d for d in (1, 2, 3, 4) if n % d == 0]
     bshape = draw(st.sampled_from(("n1", "n1", "n")))
+    # x0 always has the shape (n, 1) of the returned solution - also with a 1-D b (which CG unsqueezes to (n, 1))
     x0 = draw(st.sampled_from(("none", "none", "rand", "near", "exact", "zero")))
-    if bshape == "n":
-        x0 = "none"
     return {"n": n, "dtype": dtype, "akind": draw(st.sampled_from(("dense_spec", "blockdiag", "blockdiag"))),
             "layout": layout, "bs": draw(st.sampled_from(divs)),
             "cond_exp": draw(st.sampled_from((0, 1, 2, 3))), "cond_mant": draw(st.sampled_from((1.0, 3.0))),
@@ -597,6 +777,15 @@ def _cg_case(draw):
 
 
 class CGSub(Sub):
+    """|b - A x| <= tol |b| + rounding slack.  Slack: CG returns when its RECURSIVELY UPDATED residual r_k satisfies
+    |r_k| < tol |b|; the true residual is b - A x_k = r_k + d_k, where the gap d_k collects the local rounding errors of
+    r_0 = fl(b - A x0), x += alpha p, q = fl(A p), r -= alpha q:  |d_k| <= eps * sum_j (|A||x_j| + (2 + c_mv)|A||alpha_j p_j|)
+    + c_mv eps |A||x0|  (Greenbaum 1997, "Estimating the attainable accuracy of recursively computed residual methods"),
+    c_mv ~ sqrt(n) for an n-term inner product in working precision, |x_j| <~ |x| + |x0|.  So the attainable floor is
+    c eps sqrt(n) |A| (|x| + |x0|) - it contains NO extra condition-number factor (|A||x| <= cond |b| is already the
+    whole cond dependence).  C_CG = 8; measured on the unchanged tree over 4e4 float32 systems (cond <= 1e3, all tol,
+    x0 and M kinds): worst (|b - Ax| - tol|b|) / (eps |A| (|x|+|x0|)) = 1.6, independent of n and cond, i.e. pypose's CG
+    reaches the floor within its default 10 n iterations also in float32 at cond 1e3; float64 never exceeds tol|b|."""
     name = "cg"
     n = {"quick": 5000, "thorough": 100000}
 
@@ -645,7 +834,10 @@ class CGSub(Sub):
         lay, mlay = case["layout"], case["mlayout"]
         rec.label("cg:A:" + lay, "cg:x0:" + case["x0"], "cg:M:" + case["M"] + (":" + mlay if Mn is not None else ""),
                   "cg:tol:%g" % case["tol"], "cg:b:" + case["bkind"] + ":" + case["bshape"], dtype,
-                  "cg:cond:1e%d" % case["cond_exp"], "cg:" + case["akind"], "size:" + _cls(n))
+                  "cg:cond:1e%d" % case["cond_exp"], "cg:cond:%s:1e%d" % (dtype, case["cond_exp"]), "cg:" + case["akind"],
+                  "size:" + _cls(n))
+        if case["x0"] != "none":
+            rec.label("cg:x0_with_b:" + case["bshape"])
         if not CG_LAYOUT_OK[(lay, dtype)] or (Mn is not None and not CG_LAYOUT_OK[(mlay, dtype)]):
             rec.label("cg:layout_unsupported_by_torch:%s/%s" % (lay, mlay))
             return
@@ -665,7 +857,7 @@ class CGSub(Sub):
             x = ppos.CG(tol=case["tol"])(SA, tbb, **kw)
         if x0n is not None or Mn is not None:
             rec.nt(("cg", lay, case["x0"], case["M"], mlay if Mn is not None else "-", case["tol"], case["cond_exp"],
-                    case["bkind"], _cls(n), dtype, case["akind"]))
+                    case["bkind"], _cls(n), dtype, case["akind"], case["bshape"] if x0n is not None else "-"))
         # side checks: arguments are not modified (x0 overwrite was finding F3 / C06)
         if "x" in kw:
             rec.check(torch.equal(kw["x"], keep["x"]), "cg:mutates_x0", "CG overwrote the caller's initial guess x")
@@ -688,8 +880,8 @@ class CGSub(Sub):
         res = _nrm(bn - An @ xi)
         nA = float(lam.max())
         nx0 = _nrm(x0n) if x0n is not None else 0.0
-        tol = case["tol"] * nb + C_CG * eps * cond * nA * (_nrm(xi) + nx0)
-        slack = tol - case["tol"] * nb
+        slack = C_CG * eps * math.sqrt(n) * nA * (_nrm(xi) + nx0)
+        tol = case["tol"] * nb + slack
         if slack > 0:       # by design CG stops just below tol|b|: the calibrated quantity is the excess over it
             _note(rec, "cg_excess/rounding_slack:" + dtype, (res - case["tol"] * nb) / slack)
         rec.check(res <= tol, "cg:residual:%s" % dtype,
@@ -790,7 +982,9 @@ def _sparse_case(draw):
     # block-grid dimensions: mostly small (many patterns per second), one case in ~6 per dimension reaches out to the
     # stated limit "matrix sizes 1..40" (grid dimension x block size <= 40), so long block rows / columns (dozens of stored
     # blocks in one merge) are generated too
-    dims = st.sampled_from((0, 1, 1, 2, 2, 2, 3, 3, 3, 4, 4, 5, 5, 6, 6, 9, 14, 20, 40))
+    # (no zero dimensions: the statement's sizes are 1..40 and pypose documents no empty operands; "empty" in the
+    #  statement is the empty sparsity PATTERN, styles empty / density 0)
+    dims = st.sampled_from((1, 1, 1, 2, 2, 2, 3, 3, 3, 4, 4, 5, 5, 6, 6, 9, 14, 20, 40))
     bm, bi, bn = (draw(st.sampled_from((1, 1, 2, 3, 4))) for _ in range(3))
     return {"br": min(draw(dims), 40 // bm), "bk": min(draw(dims), 40 // bi), "bc": min(draw(dims), 40 // bn),
             "bm": bm, "bi": bi, "bn": bn,
@@ -816,6 +1010,8 @@ class Sparse(Sub):
         rs = np.random.RandomState(case["seed"])
         dtype, integer = case["dtype"], bool(case["integer"])
         la, lb = case["la"], case["lb"]
+        if min(case["br"], case["bk"], case["bc"]) < 1:      # (only older replay files / shrunk cases get here)
+            rec.discard_case("zero-sized operand: outside the stated sizes 1..40")
         mA = LS.block_pattern(rs, case["br"], case["bk"], case["densA"], case["styleA"])
         K = case["bk"] * case["bi"]
         bi2 = int(case.get("bi2", 0))
@@ -832,6 +1028,19 @@ class Sparse(Sub):
         SB = _block_tensor(vB, mB, lb, dtype)
         direct = case["api"] == "direct" and (la, lb) == ("bsr", "bsc")
         must = direct or (la, lb) in MUST_RETURN
+        tag = "%s_%s" % (la, lb)
+        if case["api"] == "direct" and (la, lb) in DIRECT_EXTRA:
+            # bsr_bsc_matmul has no docstring; its own asserts admit CSR for the first and CSC for the second operand:
+            # called directly on those it may raise, but must not return a wrong product (then the dispatcher, as usual)
+            try:
+                Yd = spops.bsr_bsc_matmul(SA, SB)
+            except BaseException as e:
+                if isinstance(e, (KeyboardInterrupt, SystemExit, MemoryError)):
+                    raise
+                rec.label("sparse:direct:raised:" + tag)
+            else:
+                rec.label("sparse:direct:returned:" + tag)
+                _check_product(rec, Yd, An, Bn, integer, dtype, "bsr_bsc_matmul(%s, %s)" % (la, lb), "direct:" + tag)
         if reblocked and "bsr" in (la, lb) or reblocked and "bsc" in (la, lb):
             must = False                       # operands blocked differently along the inner dimension
             rec.label("sparse:reblocked_inner")
@@ -840,8 +1049,7 @@ class Sparse(Sub):
         dB = float(mB.mean()) if mB.size else 0.0
         empty_line = bool(mA.size and (not mA.any(1).all() or not mA.any(0).all())) or \
             bool(mB.size and (not mB.any(1).all() or not mB.any(0).all())) or mA.size == 0 or mB.size == 0
-        tag = "%s_%s" % (la, lb)
-        rec.label("pair:" + tag, "int" if integer else "real", dtype)
+        rec.label("pair:" + tag, "int" if integer else "real", dtype, "api:direct" if direct else "api:dispatch")
         try:
             Y = spops.bsr_bsc_matmul(SA, SB) if direct else spops._sparse_csr_mm(SA, SB)
         except BaseException as e:      # `raise NotImplemented` surfaces as TypeError; all of these are loud
@@ -880,7 +1088,7 @@ class Sparse(Sub):
         for key in ("br", "bk", "bc"):
             v = case[key]
             for w in sorted({1, 2, v - 1}):
-                if 0 <= w < v:
+                if 1 <= w < v:
                     yield dict(case, **{key: w})
         for key in ("styleA", "styleB"):
             if case[key] != "full":
@@ -893,7 +1101,7 @@ class Patterns(Sub):
     kind = "enum"
     exhaustive = True      # all patterns of the stated shapes; values are an injective encoding of (row, k, col)
 
-    SHAPES = [(1, k, 1) for k in range(0, 7)] + [(2, k, 2) for k in range(1, 4)] + [(3, 2, 1), (1, 2, 3)]
+    SHAPES = [(1, k, 1) for k in range(1, 7)] + [(2, k, 2) for k in range(1, 4)] + [(3, 2, 1), (1, 2, 3)]
 
     def cases(self, tier):
         for (br, bk, bc) in self.SHAPES:
@@ -959,6 +1167,20 @@ def selftest():
             assert np.allclose((Q * lam) @ Q.T, A, atol=1e-12)
     A, kz = _int_singular(rs, 5)
     assert abs(np.linalg.det(A)) < 1e-6 and np.linalg.eigvalsh(A).min() > -1e-9
+    A, kz = _int_singular(rs, 40)           # exactly representable in float32 at every size: integer entries << 2^24
+    assert np.array_equal(A, np.round(A)) and np.abs(A).max() < 2 ** 20 and np.array_equal(_cast(A, "float32")[0], A)
+    assert np.linalg.eigvalsh(A).min() > -1e-9 * np.abs(A).max() and np.linalg.matrix_rank(A) == 39
+    # explicit cut-offs: the truncated reference against numpy's pinv with the same rcond; cut-offs clear of the spectrum
+    for smode in SMODES:
+        it = _make_item(rs, 9, 7, "svd", "full", 1e6, smode, 3.0, "qr", 0)
+        b = _make_rhs(rs, it, "random", 1.0)
+        for gap in (True, False):
+            j, tau = _cutoff(rs, it, gap)
+            assert 1 <= j <= it.r and it.s[j - 1] >= 3.999 * tau * it.s[0] and (j == it.r or 3.999 * it.s[j] <= tau * it.s[0])
+            assert gap or j == it.r
+            ref = np.linalg.pinv(it.A, rcond=tau) @ b
+            assert np.allclose(_xstar_trunc(it, b, j), ref, atol=1e-9 * (1 + np.abs(ref).max())), (smode, gap)
+    assert _cond_cap("float64", 40) == 1e8 and 2.0e4 < _cond_cap("float32", 40) < 2.2e4 and _decade(3e4) == 4 and _decade(1.0) == 0
     # block helpers: explicit BSR / BSC construction reproduces the dense matrix
     mask = np.array([[1, 0, 1], [0, 0, 0]], dtype=bool)
     vals = LS.block_values(rs, mask, 2, 3, True)
